@@ -180,6 +180,35 @@ def self_bounding(prog, fid, depth=0):
     return res
 
 
+def _advanced(fn, operand, depth=0, seen=None):
+    """Does the value pass through an addition of a constant (x + 1, checked_add(1), saturating_add(1)) on its way here?"""
+    seen = seen if seen is not None else set()
+    pl = op_place(operand)
+    if pl is None or pl[0] in seen or depth > 8:
+        return False
+    seen.add(pl[0])
+    for d in fn.defs().get(pl[0], ()):
+        if d[0] == "assign":
+            rv = d[4]
+            if rv["r"] == "bin" and rv["op"] in ("Add", "AddWithOverflow", "AddUnchecked"):
+                if (const_int(rv["a"]) or 0) >= 1 or (const_int(rv["b"]) or 0) >= 1:
+                    return True
+            for o2 in operands_of_rvalue(rv):
+                if _advanced(fn, o2, depth + 1, seen):
+                    return True
+            if "p" in rv and _advanced(fn, {"c": rv["p"]}, depth + 1, seen):
+                return True
+        elif d[0] == "call":
+            c = fn.callee_of(d[2]) or ""
+            if re.search(r"::(checked_add|saturating_add|wrapping_add)$", c) and any((const_int(a) or 0) >= 1 for a in d[2]["args"]):
+                return True
+            if TRIVIAL.search(c):
+                for a in d[2]["args"]:
+                    if _advanced(fn, a, depth + 1, seen):
+                        return True
+    return False
+
+
 def run(ctx):
     rep = ctx.report
     prog = ctx.prog("trusted")
@@ -293,6 +322,7 @@ def run(ctx):
             continue
         n_rec += 1
         budget = False
+        stalled = []
         for m in members:
             if m.is_closure():
                 continue
@@ -314,7 +344,20 @@ def run(ctx):
                 passes_inc = any(any(x.kind == "param" and x.key == i for x in og.of_operand(a_, deep=True)) for bi in rec_calls for a_ in m.blocks[bi]["t"]["args"])
                 if gates and rec_calls and passes_inc and dominates(m, gates, rec_calls) is None:
                     budget = True
+                    # ... and every recursive call ADVANCES it: passing the depth on unchanged makes the bound vacuous on that path
+                    for bi in rec_calls:
+                        for a_ in m.blocks[bi]["t"]["args"]:
+                            if not any(x.kind == "param" and x.key == i and not x.steps for x in og.of_operand(a_, deep=True)):
+                                continue
+                            if m.locals[op_place(a_)[0]] not in ("usize", "u32", "u16", "u64", "u8") if op_place(a_) else True:
+                                continue
+                            if not _advanced(m, a_):
+                                stalled.append((m.name, m.block_line(bi)))
         name = sorted(comp)[0]
+        if budget:
+            rep.check(not stalled, "C13.R3", "recursion-advances-depth:%s" % name.replace("warp_core::", ""), "every recursive call passes an advanced depth",
+                      "a recursive call passes the depth/budget parameter on UNCHANGED (%s): nesting through that path is not counted, so the depth bound does not bound it "
+                      "(stack overflow on deeply nested input)" % stalled[:2], site=prog.fns[name].loc())
         rep.check(budget, "C13.R3", "recursion-budget:%s" % name.replace("warp_core::", ""), "recursion carries a compared depth/budget parameter",
                   "%s recurses over input bytes without a depth/budget bound: nesting depth is attacker-controlled (stack overflow)" % name, site=prog.fns[name].loc())
     rep.check(n_rec >= 2, "C13.R3", "recursion:sites", "%d input-consuming recursive components examined" % n_rec, "only %d input-consuming recursive components found" % n_rec, site="workspace")
